@@ -23,6 +23,7 @@ import (
 	"runtime"
 	"sort"
 	"strings"
+	"sync"
 	"time"
 
 	"github.com/olive-io/bpmn/schema"
@@ -43,7 +44,11 @@ func init() {
 		Shard: 1, Par: 12, // one process per case (quiescence detection is process-global)
 		Count: func(tier string) int { return len(c08engCases(tier)) },
 		Run: func(out *rec.Out, idx int, rng *rec.Rng, tier string, stats map[string]int) {
-			c08engRun(out, c08engCases(tier)[idx], stats)
+			c := c08engCases(tier)[idx]
+			if c.tag == "random" {
+				c = c08engRandom(rng)
+			}
+			c08engRun(out, c, stats)
 		},
 	}
 }
@@ -134,7 +139,7 @@ const (
 type c08ttCase struct {
 	k       int
 	mode    string // seq | conc | parked | procheld
-	variant string // none | cancel_before | cancel_parked | timeout_before | timeout_parked
+	variant string // none | cancel_before | cancel_parked | timeout_before | timeout_parked | cancel_noreader_before | cancel_noreader_parked
 	perturb int    // 0 none, 1 yields, 2 yields and micro-sleeps
 }
 
@@ -154,10 +159,36 @@ func c08outText(r bpmn.DoResponse) string {
 	return "err other"
 }
 
-// c08waitOut waits until the response channel holds a value (the process goroutine has answered by itself).
-func c08waitOut(tt bpmn.VerifTaskTrace, d time.Duration) bool {
+// c08reader plays the task goroutine: it receives whatever the response channel delivers, for as long as the case runs
+// (a second value would be a second effective answer).
+type c08reader struct {
+	mu   sync.Mutex
+	vals []string
+}
+
+func (r *c08reader) run(ch <-chan bpmn.DoResponse, stop <-chan struct{}) {
+	for {
+		select {
+		case v := <-ch:
+			r.mu.Lock()
+			r.vals = append(r.vals, c08outText(v))
+			r.mu.Unlock()
+		case <-stop:
+			return
+		}
+	}
+}
+
+func (r *c08reader) got() []string {
+	r.mu.Lock()
+	defer r.mu.Unlock()
+	return append([]string(nil), r.vals...)
+}
+
+// c08waitOut waits until the reader holds a value (the process goroutine has answered by itself).
+func c08waitOut(r *c08reader, d time.Duration) bool {
 	deadline := time.Now().Add(d)
-	for len(tt.Out) == 0 {
+	for len(r.got()) == 0 {
 		if time.Now().After(deadline) {
 			return false
 		}
@@ -192,26 +223,33 @@ func c08ttRun(out *rec.Out, c c08ttCase, seed uint64, stats map[string]int) {
 		ctl.Hold(c08pointForward)
 	}
 	tt := bpmn.VerifNewTaskTraceFor(ctx, timeout, c08newActivity())
+	// the reader of the response channel (the task goroutine); in the `noreader` variants it has left on ctx.Done()
+	noReader := strings.Contains(c.variant, "noreader")
+	reader := &c08reader{}
+	stopReader := make(chan struct{})
+	defer close(stopReader)
+	if !noReader {
+		go reader.run(tt.Out, stopReader)
+	}
 
 	fail := func(format string, a ...any) { out.Line("harness-error "+format, a...) }
 	envBefore := func() bool {
-		switch c.variant {
-		case "cancel_before", "cancel_parked":
+		if strings.HasPrefix(c.variant, "cancel") {
 			cancel()
 		}
 		if c.variant != "none" {
-			if !c08waitOut(tt, 3*time.Second) {
+			if !noReader && !c08waitOut(reader, 10*time.Second) {
 				fail("process goroutine did not answer after %s", c.variant)
 				return false
 			}
-			if !c08settle(3 * time.Second) {
+			if !c08settle(10 * time.Second) {
 				fail("no quiescence after %s", c.variant)
 				return false
 			}
 		}
 		return true
 	}
-	if c.variant == "cancel_before" || c.variant == "timeout_before" {
+	if strings.HasSuffix(c.variant, "_before") {
 		if !envBefore() {
 			return
 		}
@@ -238,7 +276,7 @@ func c08ttRun(out *rec.Out, c c08ttCase, seed uint64, stats map[string]int) {
 		// the next call starts as soon as the previous one has returned, or is parked with nothing else able to run
 		for i := 0; i < c.k; i++ {
 			launch(i)
-			deadline := time.Now().Add(3 * time.Second)
+			deadline := time.Now().Add(10 * time.Second)
 			quiet := 0
 			for !isBack(i) {
 				runtime.Gosched()
@@ -258,7 +296,7 @@ func c08ttRun(out *rec.Out, c c08ttCase, seed uint64, stats map[string]int) {
 			}
 		}
 		if c.mode == "procheld" {
-			if !c08settle(3 * time.Second) {
+			if !c08settle(10 * time.Second) {
 				fail("no quiescence with the process goroutine held")
 				return
 			}
@@ -273,19 +311,19 @@ func c08ttRun(out *rec.Out, c c08ttCase, seed uint64, stats map[string]int) {
 		for i := 0; i < c.k; i++ {
 			launch(i)
 		}
-		if !c08settle(3 * time.Second) {
+		if !c08settle(10 * time.Second) {
 			fail("no quiescence with the callers parked")
 			return
 		}
 		out.Line("hits %s %d", c08pointSend, ctl.Hits(c08pointSend))
-		if c.variant == "cancel_parked" || c.variant == "timeout_parked" {
+		if strings.HasSuffix(c.variant, "_parked") {
 			if !envBefore() {
 				return
 			}
 		}
 		ctl.Release(c08pointSend)
 	}
-	if !c08settle(3 * time.Second) {
+	if !c08settle(10 * time.Second) {
 		fail("no quiescence at the end")
 		return
 	}
@@ -298,16 +336,20 @@ func c08ttRun(out *rec.Out, c c08ttCase, seed uint64, stats map[string]int) {
 			nblocked++
 		}
 	}
-	// everything the response channel delivers (a second value would be a second effective answer)
-	for n := 0; n < 4; n++ {
-		select {
-		case r := <-tt.Out:
-			out.Line("out %s", c08outText(r))
-			c08settle(time.Second)
-			continue
-		default:
+	if noReader && cap(tt.Out) > 0 {
+		// what is left in the buffer nobody reads (an unbuffered channel is not touched: receiving would release the sender)
+		for n := 0; n < 4; n++ {
+			select {
+			case r := <-tt.Out:
+				out.Line("out %s", c08outText(r))
+				continue
+			default:
+			}
+			break
 		}
-		break
+	}
+	for _, v := range reader.got() {
+		out.Line("out %s", v)
 	}
 	stats[fmt.Sprintf("blocked_%d", nblocked)]++
 }
@@ -318,11 +360,16 @@ func c08ttCases(tier string) []c08ttCase {
 	if tier == "thorough" {
 		reps = 12
 	}
-	for k := 1; k <= 3; k++ {
+	// 1..3 callers, and forward capacity + 2 of them: the size of the Lean witness at whatever capacity the code has
+	ks := []int{1, 2, 3}
+	if fc, _, _ := bpmn.VerifTaskTraceCaps(); fc+2 > 3 && fc+2 <= 5 {
+		ks = append(ks, fc+2)
+	}
+	for _, k := range ks {
 		for _, mode := range []string{"seq", "conc", "parked", "procheld"} {
-			variants := []string{"none", "cancel_before", "timeout_before"}
+			variants := []string{"none", "cancel_before", "timeout_before", "cancel_noreader_before"}
 			if mode == "parked" {
-				variants = append(variants, "cancel_parked", "timeout_parked")
+				variants = append(variants, "cancel_parked", "timeout_parked", "cancel_noreader_parked")
 			}
 			for _, v := range variants {
 				if mode == "procheld" && v != "none" {
@@ -545,6 +592,8 @@ type c08ans struct {
 	retries int32 // handler.Retries
 	results map[string]int
 	objs    map[string]int
+	// further Do calls on the same request: right after the first one returned / after the engine has come to rest
+	extraNow, extraLate []c08ans
 }
 
 type c08engCase struct {
@@ -648,34 +697,55 @@ func c08engCases(tier string) []c08engCase {
 		a.objs = map[string]int{"o1": 6, "p": 4}
 		cs = append(cs, c08engCase{tag: "errres", hist: []c08ans{a, c08okAns(map[string]int{"r2": 8}, nil)}, errWithResults: true})
 	}
+	// 8. a second (and third) answer to the same request: no effect, whatever it carries
+	{
+		first := c08okAns(map[string]int{"r1": 1}, map[string]int{"o1": 2})
+		other := c08okAns(map[string]int{"r1": 0, "r2": 3}, map[string]int{"o1": 9})
+		a := first
+		a.extraNow = []c08ans{other}
+		cs = append(cs, c08engCase{tag: "double", hist: []c08ans{a}})
+		b := first
+		b.extraLate = []c08ans{other, c08errAns(3, 0)}
+		cs = append(cs, c08engCase{tag: "double", hist: []c08ans{b}})
+		c := c08errAns(2, 0)
+		c.extraLate = []c08ans{first}
+		cs = append(cs, c08engCase{tag: "double", hist: []c08ans{c}})
+		d := c08errAns(1, 1)
+		d.extraNow = []c08ans{first}
+		cs = append(cs, c08engCase{tag: "double", hist: []c08ans{d, first}})
+	}
 	if tier == "thorough" {
-		// seeded histories
-		rng := rec.NewRng(20250808)
+		// seeded histories: drawn inside the case from the case's own generator (see c08engRandom)
 		for i := 0; i < 400; i++ {
-			var h []c08ans
-			for j, m := 0, rng.Intn(6); j < m; j++ {
-				switch rng.Intn(6) {
-				case 0:
-					h = append(h, c08errAns([]int{0, 2, 3, 7}[rng.Intn(4)], int32(rng.Intn(4))))
-				default:
-					h = append(h, c08errAns(1, int32(rng.Intn(6))-1))
-				}
-			}
-			res := map[string]int{}
-			for _, nm := range []string{"r1", "r2", "u"} {
-				if rng.Bool() {
-					res[nm] = rng.Intn(3)
-				}
-			}
-			h = append(h, c08okAns(res, map[string]int{"o1": rng.Intn(5)}))
-			var d []c08ans
-			for j, m := 0, rng.Intn(4); j < m; j++ {
-				d = append(d, c08errAns(1, int32(rng.Intn(5))-1))
-			}
-			cs = append(cs, c08engCase{tag: "random", td: rng.Intn(4), hist: h, down: d})
+			cs = append(cs, c08engCase{tag: "random"})
 		}
 	}
 	return cs
+}
+
+// c08engRandom draws the answer histories of a `random` case.
+func c08engRandom(rng *rec.Rng) c08engCase {
+	var h []c08ans
+	for j, m := 0, rng.Intn(6); j < m; j++ {
+		switch rng.Intn(6) {
+		case 0:
+			h = append(h, c08errAns([]int{0, 2, 3, 7}[rng.Intn(4)], int32(rng.Intn(4))))
+		default:
+			h = append(h, c08errAns(1, int32(rng.Intn(6))-1))
+		}
+	}
+	res := map[string]int{}
+	for _, nm := range []string{"r1", "r2", "u"} {
+		if rng.Bool() {
+			res[nm] = rng.Intn(3)
+		}
+	}
+	h = append(h, c08okAns(res, map[string]int{"o1": rng.Intn(5)}))
+	var d []c08ans
+	for j, m := 0, rng.Intn(4); j < m; j++ {
+		d = append(d, c08errAns(1, int32(rng.Intn(5))-1))
+	}
+	return c08engCase{tag: "random", td: rng.Intn(4), hist: h, down: d}
 }
 
 func c08engXML(td int) (string, map[string]string) {
@@ -730,7 +800,56 @@ func c08itemsText(m map[string]data.IItem) string {
 	return c08names(parts)
 }
 
+func c08doOpts(a c08ans) []bpmn.DoOption {
+	var opts []bpmn.DoOption
+	if !a.ok {
+		if a.mode == 0 {
+			opts = append(opts, bpmn.DoWithErr(fmt.Errorf("boom")))
+		} else {
+			ch := make(chan bpmn.ErrHandler, 1)
+			ch <- bpmn.ErrHandler{Mode: bpmn.ErrHandleMode(a.mode), Retries: a.retries}
+			opts = append(opts, bpmn.DoWithErrHandle(fmt.Errorf("boom"), ch))
+		}
+	}
+	if a.results != nil {
+		res := map[string]any{}
+		for k, v := range a.results {
+			res[k] = v
+		}
+		opts = append(opts, bpmn.DoWithResults(res))
+	}
+	if a.objs != nil {
+		objs := map[string]any{}
+		for k, v := range a.objs {
+			objs[k] = v
+		}
+		opts = append(opts, bpmn.DoWithObjects(objs))
+	}
+	return opts
+}
+
+// c08engExtra issues a further Do on an answered request; it is NOT an op of the history (the models never see it):
+// if it had any effect the recorded run would differ from the model's.
+func c08engExtra(in *eng.Inst, q *eng.Req, a c08ans, when string) {
+	status := "returned"
+	if !eng.DoWithDeadline(q.Trace, 3*time.Second, c08doOpts(a)...) {
+		status = "blocked"
+	}
+	in.Note("c08 extra %s %d %s %s", q.Node, q.Occ, when, status)
+}
+
 func c08engAnswer(in *eng.Inst, q *eng.Req, a c08ans) {
+	defer func() {
+		for _, x := range a.extraNow {
+			c08engExtra(in, q, x, "now")
+		}
+		if len(a.extraLate) > 0 {
+			in.Quiesce(10 * time.Second)
+			for _, x := range a.extraLate {
+				c08engExtra(in, q, x, "late")
+			}
+		}
+	}()
 	q.Done = true
 	var opts []bpmn.DoOption
 	if a.ok {
@@ -827,7 +946,7 @@ func c08engRun(out *rec.Out, c c08engCase, stats map[string]int) {
 	nT, nDown := 0, 0
 	quiet := true
 	for steps := 0; steps < 40; steps++ {
-		if !in.Quiesce(4 * time.Second) {
+		if !in.Quiesce(10 * time.Second) {
 			in.Note("obs noquiesce")
 			quiet = false
 			break
